@@ -271,12 +271,19 @@ structure Quirks where
   shrArith : Bool
   /-- `SingleBit` (asmpars.c, used by BITPOS): `Inp >> 1` on the signed `LargeInt` -/
   singleBitArith : Bool
+  /-- function branch of `EvalStrExpression`, "argument checking": `true` = a string argument of a parameter
+  that does not take strings is converted to its integer value first (the documented on-the-fly
+  conversion); `false` = the code as found, which only converts `TempInt` to `TempFloat` there -/
+  fnStrConv : Bool := false
+  /-- same place: `DeduceExpectTypeErrMsgMask(pFunction->ArgTypes[z1], …)` receives the `1 << Typ` coded
+  `ArgTypes` although it switches over a mask of `TempType` values (`true` = as found) -/
+  fnErrRaw : Bool := true
 deriving Repr, DecidableEq
 
 /-- the pinned tree -/
-def Quirks.pinned : Quirks := ⟨true, true, true, true, true⟩
+def Quirks.pinned : Quirks := ⟨true, true, true, true, true, false, true⟩
 /-- the documented behaviour -/
-def Quirks.none : Quirks := ⟨false, false, false, false, false⟩
+def Quirks.none : Quirks := ⟨false, false, false, false, false, true, false⟩
 
 def oddW (x : W) : Bool := x.getLsbD 0
 
@@ -431,12 +438,16 @@ def bestMatch (dyadic : Bool) (tl tr : Nat) : List Nat → Nat → Nat
       let best' := if m < best then m else best
       if best' = 0 then 0 else bestMatch dyadic tl tr cs best'
 
-/-- conversions requested by `BestOpMatch` for one operand -/
+/-- conversions requested by `BestOpMatch` for one operand: `if (TypeMask & 2) TempResultToInt(…);
+if (TypeMask & 1) TempResultToFloat(…);` – two independent steps, a string that is to become a float
+takes both.  `TempResultToInt` on a string without integer value (`NonZString2Int` < 0: empty or longer
+than four characters) sets `Typ = TempNone` and the operator body is still called: it reads the
+`Contents` union of an operand that holds no number (`.ub`; finding `string-operand-not-convertible`). -/
 def convert (tm : Nat) (v : Val) : Except Err Val :=
   let v1 : Except Err Val :=
     if tm &&& 2 ≠ 0 then
       match v with
-      | .str s => match nonZString2Int s with | some x => .ok (.int x) | none => .error .type
+      | .str s => match nonZString2Int s with | some x => .ok (.int x) | none => .error .ub
       | _ => .ok v
     else .ok v
   match v1 with
@@ -448,18 +459,44 @@ def convert (tm : Nat) (v : Val) : Except Err Val :=
       | _ => .ok w
     else .ok w
 
-/-- `AddOp` on mixed operands -/
+/-- the conversion a 4-bit `BestOpMatch` field stands for -/
+def convOfMask (tm : Nat) : Conv :=
+  if tm &&& 2 ≠ 0 then (if tm &&& 1 ≠ 0 then .s2i2f else .s2i) else (if tm &&& 1 ≠ 0 then .i2f else .keep)
+
+def tyCode : Ty → Nat
+  | .int => tempInt
+  | .flt => tempFloat
+  | .str => tempString
+
+/-- what the type matching of `EvalStrExpression` decides for a table row and two operand types: type
+error, or the conversions of the left and the right operand (`BestOpMatch`, low and high field) -/
+def modelConv (row : OpRow) (tl tr : Ty) : Except Err (Conv × Conv) :=
+  let best := bestMatch row.dyadic (tyCode tl) (tyCode tr) row.combos 255
+  if best ≥ 255 then .error .type
+  else .ok (convOfMask (best &&& 15), convOfMask ((best >>> 4) &&& 15))
+
+/-- `AddOp` on mixed operands (a string without integer value: the result stays `TempNone`, nothing is
+reported) -/
 def addMixed (l r : Val) : Except Err Val :=
   match l, r with
   | .int a, .str s =>
     match nonZString2Int s with
     | some x => .ok (.str (int2NonZString 8 (x + a) []))
-    | none => .error .type
+    | none => .error .silent
   | .str s, .int b =>
     match nonZString2Int s with
     | some x => .ok (.str (int2NonZString 8 (x + b) []))
-    | none => .error .type
+    | none => .error .silent
   | _, _ => .error .type
+
+/-- the operator body (selected by `Id`) on the converted operands: the `switch (pLVal->Typ)` of the `*Op`
+functions -/
+def bodyOf (q : Quirks) (id : List Char) (l' r' : Val) : Except Err Val :=
+  match l', r' with
+  | .int a, .int b => (intBody q id a b).map .int
+  | .flt x, .flt y => fltBody q id x y
+  | .str a, .str b => strBody id a b
+  | _, _ => if id = ['+'] then addMixed l' r' else .error .type
 
 /-- operator application after the operands are evaluated: type matching, conversion, body -/
 def applyOp (q : Quirks) (row : OpRow) (l r : Val) : Except Err Val :=
@@ -469,12 +506,7 @@ def applyOp (q : Quirks) (row : OpRow) (l r : Val) : Except Err Val :=
     match (if row.dyadic then convert (best &&& 15) l else .ok l), convert ((best >>> 4) &&& 15) r with
     | .error e, _ => .error e
     | _, .error e => .error e
-    | .ok l', .ok r' =>
-      match l', r' with
-      | .int a, .int b => (intBody q row.id a b).map .int
-      | .flt x, .flt y => fltBody q row.id x y
-      | .str a, .str b => strBody row.id a b
-      | _, _ => if row.id = ['+'] then addMixed l' r' else .error .type
+    | .ok l', .ok r' => bodyOf q row.id l' r'
 
 def zeroLike : Val → Val
   | .flt _ => .flt 0.0
@@ -582,17 +614,39 @@ def fnBody (q : Quirks) (name : List Char) (args : List Val) : Except Err Val :=
     else .error .type
   | _ => .error .type
 
+/-- `DeduceExpectTypeErrMsgMask(Mask, ActType)` as error class: the "expected … but got …" messages are
+type errors, every combination the `switch` does not list is `ErrNum_InternalError` -/
+def deduceErr (mask act : Nat) : Err :=
+  if act = tempInt then (if mask = tempString then .type else .internal)
+  else if act = tempFloat then
+    (if mask = tempInt ∨ mask = tempString ∨ mask = tempInt ||| tempString then .type else .internal)
+  else if act = tempString then
+    (if mask = tempInt ∨ mask = tempFloat ∨ mask = tempInt ||| tempFloat then .type else .internal)
+  else .internal
+
+/-- a `1 << Typ` coded type set as a mask of `TempType` values -/
+def typMaskOf (m : Nat) : Nat :=
+  (if m &&& (1 <<< tempInt) ≠ 0 then tempInt else 0) ||| (if m &&& (1 <<< tempFloat) ≠ 0 then tempFloat else 0) |||
+  (if m &&& (1 <<< tempString) ≠ 0 then tempString else 0)
+
 /-- argument conversion of the function branch: an integer becomes a float when the function does not
-take integers; then the type test (`1 << Typ`) -/
-def convArgs : List Val → List Nat → Except Err (List Val)
+take integers; then the type test (`1 << Typ`), whose failure is reported through
+`DeduceExpectTypeErrMsgMask` -/
+def convArgs (q : Quirks) : List Val → List Nat → Except Err (List Val)
   | [], _ => .ok []
   | v :: vs, ms =>
     let m := ms.headD 0
-    let v' := match v with
-      | .int a => if m &&& (1 <<< tempInt) = 0 then Val.flt (toF a) else v
+    let v0 := match v with
+      | .str s =>
+        if q.fnStrConv ∧ m &&& (1 <<< tempString) = 0 then
+          match nonZString2Int s with | some x => Val.int x | none => v
+        else v
       | _ => v
-    if m &&& (1 <<< valTyp v') = 0 then .error .type
-    else match convArgs vs ms.tail with
+    let v' := match v0 with
+      | .int a => if m &&& (1 <<< tempInt) = 0 then Val.flt (toF a) else v0
+      | _ => v0
+    if m &&& (1 <<< valTyp v') = 0 then .error (deduceErr (if q.fnErrRaw then m else typMaskOf m) (valTyp v'))
+    else match convArgs q vs ms.tail with
       | .error e => .error e
       | .ok r => .ok (v' :: r)
 
@@ -602,7 +656,7 @@ def applyFn (q : Quirks) (name : List Char) (args : List Val) : Except Err Val :
   | some row =>
     if args.length < row.minArgs ∨ args.length > row.maxArgs then .error .funcArgCnt
     else
-      match convArgs args row.argTypes with
+      match convArgs q args row.argTypes with
       | .error e => .error e
       | .ok as => fnBody q name as
 
